@@ -87,6 +87,10 @@ func (r *Reader) UVarInt() (uint64, error) {
 	return n, nil
 }
 
+// maxStrSize is maximum size of single string value, same as
+// DEFAULT_MAX_STRING_SIZE in ClickHouse.
+const maxStrSize = 1 << 30
+
 func (r *Reader) StrLen() (int, error) {
 	n, err := r.Int()
 	if err != nil {
@@ -95,6 +99,11 @@ func (r *Reader) StrLen() (int, error) {
 
 	if n < 0 {
 		return 0, errors.Errorf("size %d is invalid", n)
+	}
+	if n > maxStrSize {
+		// Memory for the string is allocated before reading it, so
+		// corrupted length should not be trusted blindly.
+		return 0, errors.Errorf("size %d is suspiciously big, maximum is %d (preventing possible OOM)", n, maxStrSize)
 	}
 
 	return n, nil
